@@ -147,7 +147,7 @@ func (env *Zlisp) sourceItem(item Sexp, result *Sexp) error {
 		}
 
 	default:
-		return fmt.Errorf("source: Expected `string`, `list`, `array`. Instead found type %T val %v", item, item)
+		return fmt.Errorf("source: Expected `string`, `list`, `array`. Instead found type %T val %s", item, item.SexpString(nil))
 	}
 
 	return nil
